@@ -56,7 +56,7 @@ var c16Odd = []struct {
 	{"js-upper", func(i int) string { return fmt.Sprintf("JavaScript:go(%d)", i) }},
 }
 
-var c16Skels = []string{"numbered", "numbered+nav", "nav-only", "two-pagers"}
+var c16Skels = []string{"numbered", "numbered+nav", "nav-only", "two-pagers", "numbered+base", "numbered+nav+base"}
 
 type c16Slot struct {
 	page  int    // page the slot points to
@@ -80,9 +80,9 @@ func c16Items(skel string, k int) []c16Slot {
 		s = append(s, c16Slot{page: k + 1, label: "Next »"})
 	}
 	switch skel {
-	case "numbered":
+	case "numbered", "numbered+base":
 		num()
-	case "numbered+nav":
+	case "numbered+nav", "numbered+nav+base":
 		num()
 		nav()
 	case "nav-only":
@@ -130,7 +130,12 @@ func c16Doc(pg c16Page, skel string, k int, odd map[int]int) string {
 		}
 	}
 	pager.WriteString("</div>")
-	return "<html><head><title>" + ora.DefaultTitle + "</title></head><body><div class=\"main\"><p>" + t.W(22) + "</p><p>" + t.W(25) + "</p><p>" + t.W(21) + "</p></div>" + pager.String() + "</body></html>"
+	base := ""
+	if strings.HasSuffix(skel, "+base") {
+		// a <base> element pointing to a mirror host: the property speaks of the page URL's host
+		base = "<base href=\"http://mirror.example.net/a/b/\">"
+	}
+	return "<html><head><title>" + ora.DefaultTitle + "</title>" + base + "</head><body><div class=\"main\"><p>" + t.W(22) + "</p><p>" + t.W(25) + "</p><p>" + t.W(21) + "</p></div>" + pager.String() + "</body></html>"
 }
 
 func c16Enumerate(tier string, emit func(*eng.Case)) {
@@ -155,7 +160,7 @@ func c16Enumerate(tier string, emit func(*eng.Case)) {
 						emit(&eng.Case{Kind: "pager", HTML: html, URL: pg.url(k), Algo: algo,
 							P: map[string]string{"doc": fmt.Sprintf("page=%s(%d) k=%d skel=%s %s", pg.name, pi, k, skel, strings.Join(d, " "))}})
 					}
-					if len(odd) == maxOdd {
+					if len(odd) == maxOdd || (tier != "thorough" && strings.HasSuffix(skel, "+base") && len(odd) == 1) {
 						return
 					}
 					for s := start; s < nslots; s++ {
@@ -264,7 +269,7 @@ func init() {
 	eng.Register(&eng.Prop{
 		ID:        "C16",
 		DesignRef: "§5 C16",
-		Rule: "6 page-URL families (query, relative query, path with trailing slash, directory with trailing slash, escaped path, https with port and relative file names) x current page k in 1..3 x 4 pager skeletons (numbered, numbered + Prev/Next anchors, Prev/Next only, two pagers) x both algorithms; every assignment of <= 2 (quick) / <= 3 (thorough) link slots to one of 22 odd hrefs (javascript:, empty, #, mailto:, off-site, scheme-relative, look-alike host, upper-case host, userinfo, other port, relative file/dir, ../, fragment, ftp:, data:, unparseable, missing href, space in path, JavaScript:). " +
+		Rule: "6 page-URL families (query, relative query, path with trailing slash, directory with trailing slash, escaped path, https with port and relative file names) x current page k in 1..3 x 6 pager skeletons (numbered, numbered + Prev/Next anchors, Prev/Next only, two pagers, the first two again with a <base href> on another host) x both algorithms; every assignment of <= 2 (quick) / <= 3 (thorough) link slots to one of 22 odd hrefs (javascript:, empty, #, mailto:, off-site, scheme-relative, look-alike host, upper-case host, userinfo, other port, relative file/dir, ../, fragment, ftp:, data:, unparseable, missing href, space in path, JavaScript:). " +
 			"Oracle: a non-empty NextPage/PrevPage parses, is http(s), has the page's host (case-insensitively), and equals - after dropping the fragment and one trailing slash, paths compared decoded - the RFC 3986 resolution of some anchor's href against the page URL as supplied. Non-trivial = a link was returned and the document holds >= 1 non-fetchable/off-site href.",
 		Enumerate: c16Enumerate,
 		Check:     c16Check,
